@@ -744,6 +744,10 @@ def cases_for(tier, seed):
         (["=", ["f", "?x"], ["f", "?x"]], "equality"),
         (["<=", ["+", ["fuel-cost", "?x"], ["fuelcost", "?x"]], "4"], "inequality"),
         (["<=", ["-", ["a", "b"], ["ab"]], "0"], "inequality"),
+        # a factor that is a SUM whose every coefficient rounds to zero at 2 (4) decimals: the product vanishes, it does not lose the factor
+        (["<=", ["*", ["f", "?x"], ["+", ["*", "0.004", ["g"]], "0.001"]], "10"], "tree_method"),
+        (["*", ["f", "?x"], ["+", ["*", "0.004", ["g"]], "0.001"]], "expression"),
+        (["=", ["*", ["f", "?x"], ["+", ["*", "0.00002", ["g"]], "0.00001"]], ["load_limit", "?x"]], "equality"),
     ]
     for c, entry in fixed:
         for d in (0, 2, 4, 6):
